@@ -132,6 +132,30 @@ def check(run: Run) -> None:
             sl = q.slice(n, c.args[1])
             if "collect_quantity_factor_and_dimension" not in sl.calls or "dimension" not in sl.params:
                 run.violate("S4", f"{q.qual}:dimension", q.mod, c, "the registered dimension is neither the explicit `dimension` nor the collected one")
+    # an explicit dimension= does not relabel an expression that has a dimension of its own: the collected dimension is compared with it, and a mismatch raises
+    run.ob("S4", "Quantity.__init__:explicit-dimension-checked")
+    collected_names = set()
+    for n_ in q.cfg.stmt_nodes():
+        a_ = n_.ast
+        if isinstance(a_, ast.Assign) and isinstance(a_.value, ast.Call) and dotted(a_.value.func) == "collect_quantity_factor_and_dimension" \
+                and isinstance(a_.targets[0], ast.Tuple) and len(a_.targets[0].elts) == 2 and isinstance(a_.targets[0].elts[1], ast.Name):
+            collected_names.add(a_.targets[0].elts[1].id)
+    relabel_guard = False
+    for t_ in [n_ for n_ in q.cfg.stmt_nodes() if n_.kind == "test" and isinstance(n_.ast, ast.If)]:
+        if not any(isinstance(x, ast.Raise) for st_ in t_.ast.body for x in ast.walk(st_)):
+            continue
+        sl_ = q.slice(t_, t_.ast.test, control=True)
+        names_ = {x.id for e_ in sl_.exprs for x in ast.walk(e_) if isinstance(x, ast.Name)} | sl_.params
+        if any(c_.endswith("equivalent_dims") for c_ in sl_.calls) and "dimension" in names_ and (collected_names & names_ or "collect_quantity_factor_and_dimension" in sl_.calls):
+            if all(q.cfg.dominated_by(n_, lambda y, t_=t_: y is t_) or any(tt is t_ for tt, _ in t_.lexical_tests) for n_, c_ in sets if dotted(c_.func) == "SI.set_quantity_dimension"):
+                relabel_guard = True
+            # the guard may itself sit under `if dimension is not None`: then dominance is by the outer test; accept when every setter comes after it in the function
+            elif all(getattr(n_.ast, "lineno", 0) > getattr(t_.ast, "lineno", 0) for n_, c_ in sets):
+                relabel_guard = True
+    if not relabel_guard:
+        run.violate("S4", f"{q.qual}:explicit-dimension-relabels", q.mod, q.fn,
+                    "Quantity(expr, dimension=d) registers d without comparing it with the dimension collected from expr: Quantity(0.44 * units.second, dimension=units.length) "
+                    "is a length - a dimensional expression is silently relabelled instead of refused")
     # S6
     homomorphism(run, mod, "Mul", h["Mul"], {"Mult"}, {"Mult"})
     homomorphism(run, mod, "Add", h["Add"], {"Add"}, set())
